@@ -187,6 +187,19 @@ theorem sign_agree_all (L : CurveLaws E) (d k : Nat) (msg : Bytes)
     | error e' => rfl
     | ok sig => exact absurd (CurveLaws.secpSign_ok d k msg sig hk0 hs).hx hx
 
+/-- **signing, deterministic form**: with the RFC 6979 nonce both wrappers derive (hash function `H` arbitrary;
+key bytes and the message reduced mod n — what libsecp256k1 does and what the k256 wrapper does after
+`fix-C16-k256-sign-reduce-message`), `k256::sign` and `secp256k1::sign` return the same bytes or both panic,
+for every key `0 < d < n` and every message. -/
+theorem signDet_agree (L : CurveLaws E) (H : Bytes → Bytes) (d : Nat) (msg : Bytes) (hd0 : d ≠ 0) (hd : d < E.n) :
+    (k256SignDet E H d msg).toOption = (secpSignDet E H d msg).toOption := by
+  unfold k256SignDet secpSignDet
+  cases hk : nonceReduced E H d msg with
+  | none => rfl
+  | some k =>
+    obtain ⟨hk0, hklt⟩ := Rfc6979.generateK_range H E.n _ _ k hk
+    exact sign_agree_all L d k msg hk0 hklt hd0 hd
+
 /-! ### non-vacuity: the lawful toy curve `y² = x³ + 7` over F₄₃ (order 31), concrete inputs -/
 section Examples
 open FuelVerif.Ecdsa.Toy
